@@ -1,4 +1,5 @@
 import DracoModel.SeqDecoder
+import DracoModel.SymbolLegacy
 /-
   Every reader of the model returns a suffix of its input: the decoder only moves forward in the
   caller's bytes and never looks at or changes anything else (C02: the input is not modified;
@@ -166,6 +167,147 @@ theorem decodeSymbols_suf (nv nc : Nat) : SufRd (decodeSymbols nv nc) := by
                       ((ransSymbolDecoderCreate_suf _ _ _ _ hc).trans ((List.suffix_cons b r0).trans h0))
             · cases h
         · cases h
+
+/-! ### symbol decoding of every bitstream version, transform data -/
+
+theorem decodeTableV_suf (legacy : Bool) : SufRd (decodeTableV legacy) := by
+  intro bs a rest h
+  unfold decodeTableV at h
+  split at h
+  · exact decodeTable_suf _ _ _ h
+  split at h
+  · cases h
+  · rename_i n r hn
+    split at h
+    · cases h
+    · exact (decTableGo_suf _ _ _ _ _ _ h).trans (readLE_suf 4 _ _ _ hn)
+
+theorem ransSymbolDecoderCreateV_suf (legacy : Bool) (pb : Nat) : SufRd (ransSymbolDecoderCreateV legacy pb) := by
+  intro bs a rest h
+  unfold ransSymbolDecoderCreateV at h
+  split at h
+  · cases h
+  · rename_i probs r hp
+    split at h
+    · cases h; exact decodeTableV_suf legacy _ _ _ hp
+    · split at h
+      · cases h
+      · cases h; exact decodeTableV_suf legacy _ _ _ hp
+
+theorem ransStartDecodingV_suf (legacy : Bool) (pb : Nat) (before : Bytes) : SufRd (ransStartDecodingV legacy pb before) := by
+  intro bs a rest h
+  unfold ransStartDecodingV at h
+  split at h
+  · exact ransStartDecoding_suf _ _ _ _ _ h
+  split at h
+  · cases h
+  · rename_i len r hl
+    split at h
+    · cases h
+    · split at h
+      · cases h
+      · cases h; exact (suf_drop _ _).trans (readLE_suf 8 _ _ _ hl)
+
+theorem decodeSymbolsV_suf (legacy : Bool) (nv nc : Nat) : SufRd (decodeSymbolsV legacy nv nc) := by
+  intro bs a rest h
+  unfold decodeSymbolsV at h
+  split at h
+  · exact decodeSymbols_suf nv nc _ _ _ h
+  split at h
+  · cases h; exact List.suffix_refl _
+  · split at h
+    · cases h
+    · rename_i scheme rest0
+      have h0 : rest0 <:+ scheme :: rest0 := List.suffix_cons _ _
+      split at h
+      · unfold decodeTaggedSymbolsV at h
+        split at h
+        · cases h
+        · rename_i t r1 hc
+          split at h
+          · cases h
+          · rename_i st r2 hs
+            split at h
+            · cases h
+            · split at h
+              · cases h
+              · dsimp only at h
+                split at h
+                · cases h
+                · cases h
+                  exact (suf_drop _ _).trans ((ransStartDecodingV_suf _ _ _ _ _ _ hs).trans
+                    ((ransSymbolDecoderCreateV_suf _ _ _ _ _ hc).trans h0))
+      · split at h
+        · unfold decodeRawSymbolsV at h
+          split at h
+          · cases h
+          · rename_i b r0
+            split at h
+            · dsimp only at h
+              split at h
+              · cases h
+              · rename_i t r1 hc
+                split at h
+                · cases h
+                · split at h
+                  · cases h
+                  · rename_i st r2 hs
+                    cases h
+                    exact (ransStartDecodingV_suf _ _ _ _ _ _ hs).trans
+                      ((ransSymbolDecoderCreateV_suf _ _ _ _ _ hc).trans ((List.suffix_cons b r0).trans h0))
+            · cases h
+        · cases h
+
+theorem wrap_decodeTransformData_suf : SufRd Wrap.decodeTransformData := by
+  intro bs a rest h
+  unfold Wrap.decodeTransformData at h
+  split at h
+  · cases h
+  · rename_i x r1 h1
+    split at h
+    · cases h
+    · rename_i y r2 h2
+      dsimp only at h
+      split at h
+      · cases h
+      · split at h
+        · cases h
+        · cases h; exact (readLE_suf 4 _ _ _ h2).trans (readLE_suf 4 _ _ _ h1)
+
+theorem octa_decodeTransformData_suf : SufRd Octa.decodeTransformData := by
+  intro bs a rest h
+  unfold Octa.decodeTransformData at h
+  split at h
+  · cases h
+  · rename_i x r1 h1
+    split at h
+    · cases h
+    · rename_i y r2 h2
+      split at h
+      · cases h
+      · cases h; exact (readLE_suf 4 _ _ _ h2).trans (readLE_suf 4 _ _ _ h1)
+
+theorem octa_legacyDecodeTransformData_suf (pre22 : Bool) : SufRd (Octa.legacyDecodeTransformData pre22) := by
+  intro bs a rest h
+  unfold Octa.legacyDecodeTransformData at h
+  split at h
+  · cases h
+  · rename_i x r1 h1
+    dsimp only at h
+    have key : ∀ r2, (if pre22 = true then (match readLE 4 r1 with | none => none | some (_, r) => some r) else some r1) = some r2 →
+        r2 <:+ r1 := by
+      intro r2 hr
+      split at hr
+      · split at hr
+        · cases hr
+        · rename_i y r h2; cases hr; exact readLE_suf 4 _ _ _ h2
+      · cases hr; exact List.suffix_refl _
+    split at h
+    · cases h
+    · rename_i r2 hr2
+      split at h
+      · cases h
+      · cases h; exact (key _ hr2).trans (readLE_suf 4 _ _ _ h1)
 
 /-! ### metadata -/
 
